@@ -150,3 +150,174 @@ def stopA (rest : List Tok) : Bool :=
 def Expr.need (e : Expr) : Nat := 16 * e.size
 
 end Syn
+
+/-! ### statements and declarations -/
+
+namespace Syn
+open Flat (Kind)
+
+mutual
+/-- no structure literal anywhere: the printed tokens then contain no `{` (needed in `if` conditions, which
+    are parsed on the tokens before the first `{` or `;`) -/
+def Expr.noStruct : Expr → Bool
+  | .int _ _ => true
+  | .bool _ => true
+  | .str _ => true
+  | .array es => es.noStruct
+  | .structural _ _ => false
+  | .paren e => e.noStruct
+  | .deref _ _ st => st.noStruct
+  | .call _ _ args => args.noStruct
+  | .bin _ l r => l.noStruct && r.noStruct
+  | .un _ e => e.noStruct
+  | .bitcast e => e.noStruct
+  | .typecast e _ => e.noStruct
+  | .lengthOf _ _ st => st.noStruct
+  | .sizeOf _ => true
+def Exprs.noStruct : Exprs → Bool
+  | .nil => true
+  | .cons e es => e.noStruct && es.noStruct
+def Steps.noStruct : Steps → Bool
+  | .nil => true
+  | .member _ rest => rest.noStruct
+  | .elem e rest => e.noStruct && rest.noStruct
+def Fields.noStruct : Fields → Bool
+  | .nil => true
+  | .cons _ e rest => e.noStruct && rest.noStruct
+end
+
+def optSize : Option Expr → Nat
+  | none => 0
+  | some e => e.size
+
+def optTySize : Option Ty → Nat
+  | none => 0
+  | some t => t.depth
+
+mutual
+def Stmt.size : Stmt → Nat
+  | .var _ ty val => optTySize ty + optSize val + 1
+  | .assign _ _ st e => st.size + e.size + 1
+  | .mcall _ _ args => args.size + 1
+  | .loop => 1
+  | .goto _ => 1
+  | .label _ => 1
+  | .ifThen _ l r th => l.size + r.size + th.size + 1
+  | .ifElse _ l r th el => l.size + r.size + th.size + el.size + 1
+  | .block ss => ss.size + 1
+def Stmts.size : Stmts → Nat
+  | .nil => 1
+  | .cons s ss => s.size + ss.size + 1
+end
+
+def optNorm : Option Expr → Option Expr
+  | none => none
+  | some e => some e.norm
+
+mutual
+def Stmt.norm : Stmt → Stmt
+  | .var name ty val => .var name ty (optNorm val)
+  | .assign d name st e => .assign d name st.norm e.norm
+  | .mcall name b args => .mcall name b args.norm
+  | .loop => .loop
+  | .goto l => .goto l
+  | .label l => .label l
+  | .ifThen op l r th => .ifThen op l.norm r.norm th.norm
+  | .ifElse op l r th el => .ifElse op l.norm r.norm th.norm el.norm
+  | .block ss => .block ss.norm
+def Stmts.norm : Stmts → Stmts
+  | .nil => .nil
+  | .cons s ss => .cons s.norm ss.norm
+end
+
+/-- would a following `else` be taken by this statement -/
+def Stmt.isOpen : Stmt → Bool
+  | .ifThen _ _ _ _ => true
+  | .ifElse _ _ _ _ el => el.isOpen
+  | _ => false
+
+/-- does the statement start with `&` (an assignment through an address): after an `if` condition the `&` would be
+    read as a bitwise operator -/
+def Stmt.startsAmp : Stmt → Bool
+  | .assign d _ _ _ => decide (0 < d)
+  | _ => false
+
+def optOk : Option Expr → Bool
+  | none => true
+  | some e => e.lvl.isSome
+
+mutual
+/-- the statements the parser can produce (and the printer can print back) -/
+def Stmt.ok : Stmt → Bool
+  | .var _ _ val => optOk val
+  | .assign d _ st e => st.ok && decide (d ≤ 127) && decide (st.count ≤ 126) && e.lvl.isSome
+  | .mcall _ _ args => args.ok
+  | .loop => true
+  | .goto _ => true
+  | .label _ => true
+  | .ifThen _ l r th =>
+    l.lvl.isSome && r.lvl.isSome && l.noStruct && r.noStruct && th.ok && !th.startsAmp
+  | .ifElse _ l r th el =>
+    l.lvl.isSome && r.lvl.isSome && l.noStruct && r.noStruct && th.ok && !th.startsAmp && !th.isOpen && el.ok
+  | .block ss => ss.ok
+def Stmts.ok : Stmts → Bool
+  | .nil => true
+  | .cons s ss => s.ok && ss.ok
+end
+
+def Stmt.need (s : Stmt) : Nat := 16 * s.size + 8
+def Stmts.need (ss : Stmts) : Nat := 16 * ss.size + 8
+
+end Syn
+
+namespace Syn
+open Flat (Kind)
+
+def typedSize : List (String × Ty) → Nat
+  | [] => 1
+  | (_, t) :: rest => t.depth + typedSize rest + 1
+
+def bodySize : Option (Stmts × Option Expr) → Nat
+  | none => 1
+  | some (ss, rv) => ss.size + optSize rv + 1
+
+def Decl.size : Decl → Nat
+  | .imp _ => 1
+  | .const _ _ ty e => ty.depth + e.size + 1
+  | .fn _ _ params ret body => typedSize params + ret.depth + bodySize body + 1
+  | .struct _ _ _ members => typedSize members + 1
+
+def bodyNorm : Option (Stmts × Option Expr) → Option (Stmts × Option Expr)
+  | none => none
+  | some (ss, rv) => some (ss.norm, optNorm rv)
+
+def Decl.norm : Decl → Decl
+  | .imp raw => .imp raw
+  | .const fl name ty e => .const fl name ty e.norm
+  | .fn fl name params ret body => .fn fl name params ret (bodyNorm body)
+  | .struct fl name ws members => .struct fl name ws members
+
+def bodyOk : Option (Stmts × Option Expr) → Bool
+  | none => true
+  | some (ss, rv) => ss.ok && optOk rv
+
+def Decl.ok : Decl → Bool
+  | .imp _ => true
+  | .const fl _ _ e => !fl.isOpaque && e.lvl.isSome
+  | .fn fl _ _ _ body => !fl.isOpaque && bodyOk body
+  | .struct fl _ ws members =>
+    if fl.isOpaque then ws.isNone && members.isEmpty
+    else match ws with
+      | none => true
+      | some n => n == 1 || n == 2 || n == 4 || n == 8 || n == 16
+
+def Decl.need (d : Decl) : Nat := 16 * d.size + 16
+
+/-- what is left after a declaration: the closing brace after a return value is not consumed by
+    `parse_function_body` (the declaration loop skips it) -/
+def declRest (d : Decl) (rest : List Tok) : List Tok :=
+  match d with
+  | .fn _ _ _ _ (some (_, some _)) => tk .BraceRight :: rest
+  | _ => rest
+
+end Syn
